@@ -19,7 +19,7 @@ var profiles = map[string]*Profile{
 		W: map[string]int{"marker": 1, "print": 4, "ctx": 5, "counter": 4, "if": 2, "cloop": 3, "rloop": 1, "dynprint": 6, "dyncond": 4, "ifok": 2, "pastprint": 2}},
 	"C16": {Name: "include-exit", MaxDepth: 3, MaxItems: 5, Includes: true, Regions: true,
 		W: map[string]int{"marker": 3, "print": 2, "include": 5, "exit": 2, "if": 2, "switch": 1, "cloop": 2, "rloop": 2, "region": 1, "ctx": 1, "ifok": 2}},
-	"C17": {Name: "all-constructs-with-faults", MaxDepth: 3, MaxItems: 4, Includes: true, Regions: true, PfxSfx: true, Letters: true, Faults: true, BreakN: true,
+	"C17": {Name: "all-constructs-with-faults", MaxDepth: 3, MaxItems: 4, Includes: true, Regions: true, PfxSfx: true, Letters: true, Faults: true, BreakN: true, Mods: true, Effects: true,
 		W: map[string]int{"text": 2, "marker": 2, "print": 4, "if": 2, "switch": 1, "cloop": 2, "rloop": 2, "include": 2, "region": 1, "exit": 1, "break": 1, "continue": 1, "ctx": 1, "counter": 1, "ifok": 2, "lazybreak": 1}},
 	"REGION": {Name: "regions", MaxDepth: 3, MaxItems: 5, Regions: true, Letters: true, PfxSfx: true, Mods: true, Includes: true,
 		W: map[string]int{"text": 4, "print": 6, "region": 5, "if": 1, "cloop": 1, "include": 1}},
@@ -30,7 +30,7 @@ var profiles = map[string]*Profile{
 
 func regionProfile(kind string) *Profile {
 	return &Profile{Name: "region-" + kind, MaxDepth: 3, MaxItems: 5, Regions: true, RegionKind: kind, Letters: true, PfxSfx: true, Mods: true, Includes: true,
-		W: map[string]int{"text": 4, "print": 6, "region": 6, "if": 1, "cloop": 1, "include": 1}}
+		W: map[string]int{"text": 4, "print": 6, "region": 6, "if": 1, "cloop": 1, "rloop": 1, "include": 1}}
 }
 
 // mergeResults adds the counts, histogram and violations of b into a.
